@@ -25,13 +25,13 @@ bytes):
   `DataType().LengthBytes()` (both tables regenerated: `Gen/Types.lean`, read through
   `Value.byteSize` / `Value.lengthBytes`). BLOB is in neither table: `LengthBytes() = -1`, so
   `readLengthBytes(ch, -1)` reads ONE byte (the `default:` arm) and `readFromBase` reports `-1` bytes
-  read. The byte counters are therefore `Int`.
+  read. The byte counters are therefore `Int`. (Known finding `blob-not-functional`, modelled as it is.)
 * every read site of the format readers returns the sentinel `ErrNotEnoughBytes` or wraps it with
   `%w`: a short read is `notEnough` everywhere. Other errors: unknown data type; PARAMFMT's per-field
   `readBytes != formatByteLength` and final `n > totalBytes` (sic: `>`); ROWFMT's final
   `readBytes != totalLength`; ORDERBY2's final `n != totalBytes`.
-* `RowFmtPackage.ReadFrom` reads its length with `ch.Uint32()` for BOTH tokens — narrow ROWFMT
-  included (TDS 5.0: 2 bytes). Modelled as is.
+* `RowFmtPackage.ReadFrom` reads its length with `ch.Uint16()` for ROWFMT and `ch.Uint32()` for ROWFMT2
+  (since /repo 9daa22d; before, four bytes for both tokens).
 * `ch.Int8()` of the data type token in ROWFMT, converted to `asetypes.DataType` (a byte): the same
   byte value as `ch.Byte()` in PARAMFMT.
 * no index / slice / type assertion / signed wire length: no `crash` site in the format decoders.
@@ -314,9 +314,8 @@ def ParamFmt.enc (wide : Bool) (fs : List Fmt) : Enc :=
 /-- `RowFmtPackage.ReadFromField` -/
 def RowFmt.field (wide : Bool) : P (Fmt × Int) := readFromField wide wide
 
-/-- NB: `totalLength` is read with `Uint32` for the narrow token too -/
 def RowFmt.dec (wide : Bool) : P (List Fmt) := do
-  let totalLength ← u32
+  let totalLength ← uintLE (lw wide)
   let colCount ← u16
   let fields ← replicateM colCount (RowFmt.field wide)
   let readBytes : Int := 2 + sumInt (fields.map (·.2))
